@@ -435,7 +435,16 @@ impl Prop for Finds {
                 let lang = LANGS[(idx % 7) as usize];
                 let corpus = corpus_recs();
                 let n = cx.rng.range(1, 8);
-                let recs = gen::rand_recs(&mut cx.rng, lang, n, false, &corpus);
+                let mut recs = gen::rand_recs(&mut cx.rng, lang, n, false, &corpus);
+                if cx.rng.chance(1, 4) {
+                    // a neighbour record made of the first part of a word of another title
+                    let t: Vec<char> = cx.rng.pick(&recs).1.chars().filter(|c| c.is_alphanumeric()).collect();
+                    if t.len() >= 2 {
+                        let k = cx.rng.range(1, t.len().min(6));
+                        recs.push((100 + recs.len() * 3, s(&t[..k]), cx.rng.below(4)));
+                    }
+                }
+                let n = recs.len();
                 let limit = *cx.rng.pick(&[n, n, n + 1, 10.max(n), 65536]);
                 let st = St::build_sentinel(lang, &recs, limit);
                 let desc = json!(recs);
